@@ -243,7 +243,7 @@ func c16Inputs(thorough bool) []c16case {
 	for _, sp := range []struct {
 		s    *linSpace
 		q, t int64
-	}{{linuxRuleSpace("rules", 21, 2), 211, 53}, {linuxStructSpace(), 7, 2}} {
+	}{{linuxRuleSpace("rules", 22, 2), 211, 53}, {linuxStructSpace(), 7, 2}} {
 		for i := int64(1); i < sp.s.n; i += stride(sp.q, sp.t) {
 			a, b := sp.s.gen(i)
 			add(fmt.Sprintf("linux-%s:%d", sp.s.name, i), "Linux", core.Files{Main: a}, b)
